@@ -398,6 +398,7 @@ func (fr *Frame) havocMods(st *State, ms *modSet) {
 			x.havocHeap(st, k)
 		}
 		x.havocAllSeen = true
+	x.havocAllPCs = append(x.havocAllPCs, st.pc)
 	} else {
 		var hks []string
 		for k := range ms.heapKeys {
